@@ -1,0 +1,6 @@
+// Package simhook provides scheduling hooks for deterministic simulation.
+//
+// Without the "verif" build tag every hook is an empty function that the
+// compiler inlines away. With the tag, a simulator can install a Scheduler
+// that is consulted at every hook.
+package simhook
